@@ -151,6 +151,140 @@ func poolEngine(in *bufio.Scanner, out *bufio.Writer) {
 	}
 }
 
+// ---------------------------------------------------------------- stack of pools
+
+//   gvh-gc stack : the call sequences of runtimecontextmanager.go / thread.go / runtime.go on a stack of real
+//   ClonePools linked with SetParent (as PushContext does)
+//       input : <id> op;op;..  op = P1|P0 (push isolating/sharing) | M <k> <fl> | G <depth> <k> | RP | X0|X1 (exit normal/killed) | CL
+//       output: <id> <events oldest first: P<h> M<h>:<k>:<fl> F<h>:<k> R<h>:<k>> S:<state of each live pool, innermost first, '/'-separated>
+type sframe struct {
+	p     *rt.VerifClonePool
+	share int
+}
+
+func poolSig(p *rt.VerifClonePool) string {
+	closed, last, reg, pf, pr := p.VerifState()
+	return fmt.Sprintf("%v,%d,%d,%d,%d", closed, last, len(reg), len(pf), len(pr))
+}
+
+func poolState(p *rt.VerifClonePool) string {
+	closed, last, reg, pf, pr := p.VerifState()
+	sort.Slice(reg, func(i, j int) bool { return reg[i].MarkOrder < reg[j].MarkOrder })
+	c := 0
+	if closed {
+		c = 1
+	}
+	return fmt.Sprintf("%d,%x,%s,%s,%s", c, last, entStr(reg), entStr(pf), entStr(pr))
+}
+
+func stackEngine(in *bufio.Scanner, out *bufio.Writer) {
+	restore := rt.VerifSetFinalizerHook(func(obj interface{}, fin interface{}) {})
+	defer restore()
+	for in.Scan() {
+		line := in.Text()
+		i := strings.IndexByte(line, ' ')
+		if i < 0 {
+			continue
+		}
+		id, rest := line[:i], line[i+1:]
+		stack := []*sframe{{p: rt.VerifNewClonePool()}} // outermost first
+		vals := map[int]*tval{}
+		get := func(k int) *tval {
+			if v, ok := vals[k]; ok {
+				return v
+			}
+			v := &tval{key: k}
+			vals[k] = v
+			return v
+		}
+		var evs []string
+		emit := func(tag string, h int, vs []rt.VerifGCValue) {
+			for _, v := range vs {
+				evs = append(evs, fmt.Sprintf("%s%d:%x", tag, h, v.(*tval).key))
+			}
+		}
+		exit := func(h int, p *rt.VerifClonePool, killed bool) {
+			if !killed {
+				emit("F", h, p.ExtractAllMarkedFinalize()) // CallContext: runFinalizers(ExtractAllMarkedFinalize())
+			}
+			p.ExtractAllMarkedFinalize() // PopContext: result dropped
+			emit("R", h, p.ExtractAllMarkedRelease())
+		}
+		for _, op := range strings.Split(rest, ";") {
+			f := strings.Fields(op)
+			if len(f) == 0 || len(stack) == 0 {
+				continue
+			}
+			h := len(stack)
+			cur := stack[h-1]
+			func() {
+				defer func() {
+					if x := recover(); x != nil {
+						evs = append(evs, "PANIC")
+					}
+				}()
+				switch f[0] {
+				case "P1":
+					np := rt.VerifNewClonePool()
+					np.SetParent(cur.p)
+					stack = append(stack, &sframe{p: np})
+					evs = append(evs, fmt.Sprintf("P%d", h+1))
+				case "P0":
+					cur.share++
+				case "M":
+					k, fl := hx(f[1]), hx(f[2])
+					before := make([]string, h)
+					for j, fr := range stack {
+						before[j] = poolSig(fr.p)
+					}
+					cur.p.Mark(get(k), rt.VerifMarkFlags(fl))
+					who := h
+					for j, fr := range stack {
+						if poolSig(fr.p) != before[j] {
+							who = j + 1
+							break
+						}
+					}
+					evs = append(evs, fmt.Sprintf("M%d:%x:%x", who, k, fl))
+				case "G":
+					d, k := hx(f[1]), hx(f[2])
+					if d < h {
+						stack[h-1-d].p.VerifGoFinalizer(get(k))
+					}
+				case "RP":
+					emit("F", h, cur.p.ExtractPendingFinalize())
+					emit("R", h, cur.p.ExtractPendingRelease())
+				case "X0", "X1":
+					if cur.share > 0 {
+						cur.share--
+					} else if h > 1 {
+						exit(h, cur.p, f[0] == "X1")
+						stack = stack[:h-1]
+					}
+				case "CL":
+					for j := h; j >= 1; j-- {
+						exit(j, stack[j-1].p, false)
+					}
+					stack = stack[:0]
+				}
+			}()
+		}
+		var sts []string
+		for j := len(stack) - 1; j >= 0; j-- {
+			sts = append(sts, fmt.Sprintf("%d|%s", stack[j].share, poolState(stack[j].p)))
+		}
+		es, ss := "-", "-"
+		if len(evs) > 0 {
+			es = strings.Join(evs, ",")
+		}
+		if len(sts) > 0 {
+			ss = strings.Join(sts, "/")
+		}
+		fmt.Fprintf(out, "%s %s S:%s\n", id, es, ss)
+		out.Flush()
+	}
+}
+
 // ---------------------------------------------------------------- Lua level
 
 type releaser struct {
@@ -273,6 +407,8 @@ func main() {
 	switch os.Args[1] {
 	case "pool":
 		poolEngine(in, out)
+	case "stack":
+		stackEngine(in, out)
 	case "lua":
 		luaEngine(in, out)
 	default:
